@@ -314,6 +314,10 @@ def gen(t, tier):
         sc['fault'] = {'errno': t.pick(['EIO', 'ENOSPC', 'EACCES', 'short'])}
         if sc['fault']['errno'] in ('EIO', 'ENOSPC') and t.chance(0.5):
             sc['fault']['sticky'] = True
+    elif b['type'] == 'compact' and t.chance(0.04):
+        # the bundles of this cache have grown beyond 4 GiB (40-bit offsets): the history runs on a real tmpfs directory and
+        # after the operation with this number every bundle file is extended - sparsely - past the 32-bit limit
+        sc['huge'] = {'at': t.choice(min(4, nops)), 'extra': t.pick([1000, 12345, 70000, (1 << 31) + 999])}
     return sc
 
 
@@ -377,7 +381,7 @@ def run(sc, tape):
         return _run_conc(sc, tape)
     b = sc['backend']
     name = C.backend_name(b)
-    onsim = b['type'] in ('file', 'compact')
+    onsim = b['type'] in ('file', 'compact') and not sc.get('huge')
     realdir = None
     fault = sc.get('fault')
     faults = {}
@@ -434,6 +438,12 @@ def run(sc, tape):
                     w.clock.now += 0.25
                     try:
                         runner.apply(op, i)
+                        if sc.get('huge') and i >= sc['huge']['at']:
+                            import glob
+                            for bf in sorted(glob.glob(cdir + '/L*/*.bundle')):
+                                if os.path.getsize(bf) < (1 << 32):
+                                    os.truncate(bf, (1 << 32) + sc['huge']['extra'])
+                                    probes['bundle_over_4GiB'] = probes.get('bundle_over_4GiB', 0) + 1
                     except M.Mismatch as m:
                         return runner, state, {'sig': 'C05:%s:%s%s' % (m.kind, name, ':after-io-fault' if state['fired'] else ''),
                                                'msg': m.msg}
